@@ -250,6 +250,13 @@ def bam_record(rng):
 # ------------------------------------------------------------------ cases
 
 def _rand_idx(rng, n):
+    ix = _rand_idx0(rng, n)
+    if "slice" not in ix and rng.random() < 0.35:
+        ix["as"] = rng.choice(["list", "i32", "scalars"])
+    return ix
+
+
+def _rand_idx0(rng, n):
     r = rng.random()
     if r < 0.35:
         def b():
@@ -815,12 +822,21 @@ def _write_tables(c):
 
 
 def _np_idx(ix):
+    """the index as the caller would write it; `as` picks among equivalent spellings (Python list, NumPy array of another
+    integer width, list of NumPy scalars): the result must not depend on it"""
+    how = ix.get("as")
     if "int" in ix:
         return [ix["int"]]          # as an int list (see ASSUMPTIONS)
     if "slice" in ix:
         return slice(*ix["slice"])
     if "mask" in ix:
-        return np.array(ix["mask"], dtype=bool)
+        return list(ix["mask"]) if (how == "list" and ix["mask"]) else np.array(ix["mask"], dtype=bool)
+    if how == "list" and ix["ints"]:
+        return list(ix["ints"])
+    if how == "i32":
+        return np.array(ix["ints"], dtype=np.int32)
+    if how == "scalars" and ix["ints"]:
+        return [np.int64(i) for i in ix["ints"]]
     return np.array(ix["ints"], dtype=int)
 
 
